@@ -236,6 +236,17 @@ impl RawConnectorBuilder {
             left_feat_ids_tmp.push(feat_ids);
         }
 
+        // Connection ids are `u16` and id 0 is reserved for BOS/EOS, so, as in `matrix.def`, at most
+        // `u16::MAX` ids (including id 0) can be defined on each side.
+        if right_feat_ids_tmp.len() >= usize::from(u16::MAX)
+            || left_feat_ids_tmp.len() >= usize::from(u16::MAX)
+        {
+            return Err(VibratoError::invalid_format(
+                "bigram.right/left",
+                "too many connection ids",
+            ));
+        }
+
         // The connectors recover the number of connection ids from the row length, so at least
         // one feature template is required.
         if feat_template_size == 0 {
